@@ -202,13 +202,15 @@ Definition origin_replayed (kn : known) (replayed : list id) (refresh : bool) (h
   | Some gi => andb (negb (is_nil (gi_origin gi))) (memN (gi_origin gi) replayed)
   | None => false
   end.
-Fixpoint c03_from (cfg : config) (kn : known) (redeemed replayed : list id) (k : nat) (ops : list op) (xs : list obs) : N :=
+Fixpoint c03_from (cfg : config) (kn : known) (redeemed replayed : list id) (born : list (id * Z)) (now : Z)
+                  (k : nat) (ops : list op) (xs : list obs) : N :=
   match ops, xs with
   | o :: ops', x :: xs' =>
       let bad : N :=
         match o, x with
         | OpToken GAuthorizationCode r, Out (OTokens _) =>
             if memN (t_code r) redeemed then 1 else
+            if match lookup (t_code r) born with Some b => Z.leb (b + 60 + 3) now | None => false end then 4 else
             match lookup (t_code r) (k_codes kn) with
             | Some gi => if ideq (gi_client gi) (cr_id (t_cred r)) then 0 else 2
             | None => 0 end
@@ -228,6 +230,8 @@ Fixpoint c03_from (cfg : config) (kn : known) (redeemed replayed : list id) (k :
            | OpToken GAuthorizationCode r, Out (OErr EInvalidGrant) =>
                if memN (t_code r) redeemed then t_code r :: replayed else replayed
            | _, _ => replayed end)
+          (match x with Out (ONav _ _ nv) => if is_nil (n_code nv) then born else (n_code nv, now) :: born | _ => born end)
+          (match o with OpTick d => (now + d)%Z | _ => now end)
           (S k) ops' xs'
       | c => viol c k
       end
@@ -235,7 +239,7 @@ Fixpoint c03_from (cfg : config) (kn : known) (redeemed replayed : list id) (k :
   end.
 Definition with_cfg (f : config -> list op -> list obs -> N) (c : syscase) : N :=
   match build (sc_profile c) (sc_opts c) with Some cfg => f cfg (sc_ops c) (sc_obs c) | None => 0 end.
-Definition mon_C03 := with_cfg (fun cfg ops xs => c03_from cfg known0 [] [] 0 ops xs).
+Definition mon_C03 := with_cfg (fun cfg ops xs => c03_from cfg known0 [] [] [] 0%Z 0 ops xs).
 
 (* C10 *)
 Definition clause_C10 (cfg : config) (kn : known) (now : Z) (o : op) (x : obs) : N :=
@@ -265,13 +269,14 @@ Definition mon_C10 (c : syscase) : N :=
 (* C16 *)
 Definition client_of (c : syscase) (i : id) : option client :=
   match find (fun cl => ideq (c_id cl) i) (sc_static c) with Some cl => Some cl | None => find (fun cl => ideq (c_id cl) i) (sc_dyn c) end.
-Fixpoint c16_from (cs : syscase) (reqs : list (id * (id * id))) (k : nat) (ops : list op) (xs : list obs) : N :=
+Fixpoint c16_from (cs : syscase) (reqs : list (id * (id * id))) (ended : list id) (k : nat) (ops : list op) (xs : list obs) : N :=
   match ops, xs with
   | o :: ops', x :: xs' =>
       let bad : N :=
         match o, x with
         | OpToken GCiba r, Out (OTokens _) =>
             if match t_ba r with BaApprove => false | _ => true end then 3 else
+            if memN (t_auth_req r) ended then 6 else
             match lookup (t_auth_req r) reqs with
             | Some (cl, _) =>
                 if negb (ideq cl (cr_id (t_cred r))) then 2 else
@@ -290,19 +295,53 @@ Fixpoint c16_from (cs : syscase) (reqs : list (id * (id * id))) (k : nat) (ops :
       match bad with
       | 0 => c16_from cs (match o, x with
                           | OpBcAuthorize r, Out (OCiba a _) => (a, (cr_id (br_cred r), p_notif_token (br_params r))) :: reqs
-                          | _, _ => reqs end) (S k) ops' xs'
+                          | _, _ => reqs end)
+                         (* the embedder's validation gave a terminal answer: denial -> access_denied, failure -> internal_error *)
+                         (match o, x with
+                          | OpToken GCiba r, Out (OErr EAccessDenied) => (match t_ba r with BaDeny => t_auth_req r :: ended | _ => ended end)
+                          | OpToken GCiba r, Out (OErr EInternalError) => (match t_ba r with BaFail => t_auth_req r :: ended | _ => ended end)
+                          | _, _ => ended end) (S k) ops' xs'
       | c => viol c k
       end
   | _, _ => 0
   end.
 Definition mon_C16 (c : syscase) : N :=
   match with_cfg (fun cfg ops xs => once_from cons_ciba cons_ciba cfg [] 0 ops xs) c with
-  | 0 => c16_from c [] 0 (sc_ops c) (sc_obs c)
+  | 0 => c16_from c [] [] 0 (sc_ops c) (sc_obs c)
   | k => 1000 + k
   end.
 
+(* C17, clause 3: the redirect URI and state of every navigation are those of the request's own session
+   (the parameters of the request itself, or of the pushed request it redeems) *)
+Definition own_nav (eff : params) (u : string) (nv : nav) : bool := andb (seqb u (p_redirect eff)) (seqb (n_state nv) (p_state eff)).
+Fixpoint c17iso_from (cfg : config) (cbp parp : list (id * params)) (k : nat) (ops : list op) (xs : list obs) : N :=
+  match ops, xs with
+  | o :: ops', x :: xs' =>
+      let eff_of (r : areq) : option params :=
+        if andb (cf_par_enabled cfg) (negb (is_nil (p_request_uri (ar_params r)))) then
+          match lookup (p_request_uri (ar_params r)) parp with
+          | Some pp => Some (if is_fapi (cf_profile cfg) then pp else merge_params pp (ar_params r))
+          | None => None end
+        else Some (ar_params r) in
+      match o, x with
+      | OpAuthorize r, Out (ONav _ u nv) =>
+          match eff_of r with
+          | Some eff => if own_nav eff u nv then c17iso_from cfg cbp parp (S k) ops' xs' else viol 3 k
+          | None => c17iso_from cfg cbp parp (S k) ops' xs' end
+      | OpAuthorize r, Out (OPage cb) =>
+          c17iso_from cfg (match eff_of r with Some eff => (cb, eff) :: cbp | None => cbp end) parp (S k) ops' xs'
+      | OpCallback r, Out (ONav _ u nv) =>
+          match lookup (cb_id r) cbp with
+          | Some eff => if own_nav eff u nv then c17iso_from cfg cbp parp (S k) ops' xs' else viol 3 k
+          | None => c17iso_from cfg cbp parp (S k) ops' xs' end
+      | OpPar r, Out (OPar u) => c17iso_from cfg cbp ((u, pr_params r) :: parp) (S k) ops' xs'
+      | _, _ => c17iso_from cfg cbp parp (S k) ops' xs'
+      end
+  | _, _ => 0
+  end.
+
 (* C17: a finished callback id / a redeemed request_uri is never accepted again *)
-Definition mon_C17 (c : syscase) : N :=
+Definition mon_C17a (c : syscase) : N :=
   match with_cfg (fun cfg ops xs => once_from cons_cb acc_cb cfg [] 0 ops xs) c with
   | 0 => match with_cfg (fun cfg ops xs => once_from cons_par cons_par cfg [] 0 ops xs) c with 0 => 0 | k => 2000 + k end
   | k => 1000 + k
@@ -388,3 +427,82 @@ Fixpoint c05_from (cfg : config) (st : c05st) (k : nat) (now : Z) (ops : list op
   | _, _ => 0
   end.
 Definition mon_C05 := with_cfg (fun cfg ops xs => c05_from cfg (mkC05 [] [] [] []) 0 0%Z ops xs).
+
+(* C10, clauses 4 and 6: the absolute expiry of a grant, as introspection of its refresh token reports
+   it, never moves - across refreshes and rotations; no refresh succeeds after the lifetime fixed when
+   the grant was created *)
+Fixpoint c10exp_from (cfg : config) (lin : list (id * N)) (exps born : list (N * Z)) (k : nat) (now : Z) (ops : list op) (xs : list obs) : N :=
+  match ops, xs with
+  | o :: ops', x :: xs' =>
+      let key := N.of_nat (S k) in
+      let now' := match o with OpTick d => (now + d)%Z | _ => now end in
+      match o, x with
+      | OpToken GRefreshToken r, Out (OTokens t) =>
+          match lookup (t_refresh r) lin with
+          | Some gk =>
+              if match lookupN gk born with Some b => Z.leb (b + cf_refresh_lifetime cfg + 3) now | None => false end
+              then viol 6 k
+              else c10exp_from cfg (if is_nil (tr_rt t) then lin else (tr_rt t, gk) :: lin) exps born (S k) now' ops' xs'
+          | None => c10exp_from cfg (if is_nil (tr_rt t) then lin else (tr_rt t, key) :: lin) exps born (S k) now' ops' xs'
+          end
+      | OpToken _ r, Out (OTokens t) =>
+          c10exp_from cfg (if is_nil (tr_rt t) then lin else (tr_rt t, key) :: lin) exps
+            (if is_nil (tr_rt t) then born else (key, now) :: born) (S k) now' ops' xs'
+      | OpNotifyOk _ _, Notified true (nf :: _) =>
+          c10exp_from cfg (if is_nil (nf_rt nf) then lin else (nf_rt nf, key) :: lin) exps
+            (if is_nil (nf_rt nf) then born else (key, now) :: born) (S k) now' ops' xs'
+      | OpIntrospect r, Out (OIntro i) =>
+          if andb (in_active i) (in_refresh i) then
+            match lookup (ptok_exact (q_tok r)) lin with
+            | Some gk =>
+                match lookupN gk exps with
+                | Some e => if andb (Z.leb (e - 4) (now + in_exp i)) (Z.leb (now + in_exp i) (e + 4))
+                            then c10exp_from cfg lin exps born (S k) now' ops' xs' else viol 4 k
+                | None => c10exp_from cfg lin ((gk, (now + in_exp i)%Z) :: exps) born (S k) now' ops' xs'
+                end
+            | None => c10exp_from cfg lin exps born (S k) now' ops' xs'
+            end
+          else c10exp_from cfg lin exps born (S k) now' ops' xs'
+      | _, _ => c10exp_from cfg lin exps born (S k) now' ops' xs'
+      end
+  | _, _ => 0
+  end.
+Definition mon_C10x (c : syscase) : N :=
+  match mon_C10 c with 0 => with_cfg (fun cfg ops xs => c10exp_from cfg [] [] [] 0 0%Z ops xs) c | k => k end.
+
+Definition mon_C17 (c : syscase) : N :=
+  match mon_C17a c with 0 => with_cfg (fun cfg ops xs => c17iso_from cfg [] [] 0 ops xs) c | k => k end.
+
+(* ================================================================================== *)
+(* C02: every navigation targets a URI registered for the client, or one that this client pushed
+   (accepted by /par) where unregistered URIs are permitted for PAR / under FAPI *)
+Fixpoint c02_from (cs : syscase) (cfg : config) (cbs : list (id * id)) (pushed : list (id * string))
+                  (k : nat) (ops : list op) (xs : list obs) : N :=
+  match ops, xs with
+  | o :: ops', x :: xs' =>
+      let ok_target (cl : id) (u : string) : bool :=
+        match client_of cs cl with
+        | Some c => orb (redirect_allowed c u)
+                      (andb (orb (cf_par_unregistered cfg) (is_fapi (cf_profile cfg)))
+                            (existsb (fun pr => andb (ideq (fst pr) cl) (seqb (snd pr) u)) pushed))
+        | None => false
+        end in
+      let bad : bool :=
+        match o, x with
+        | OpAuthorize r, Out (ONav _ u _) => negb (ok_target (ar_client r) u)
+        | OpCallback r, Out (ONav _ u _) =>
+            match lookup (cb_id r) cbs with Some cl => negb (ok_target cl u) | None => true end
+        | _, _ => false
+        end in
+      if bad then viol 1 k else
+      c02_from cs cfg
+        (match o, x with OpAuthorize r, Out (OPage cb) => (cb, ar_client r) :: cbs | _, _ => cbs end)
+        (match o, x with OpPar r, Out (OPar _) => (cr_id (pr_cred r), p_redirect (pr_params r)) :: pushed | _, _ => pushed end)
+        (S k) ops' xs'
+  | _, _ => 0
+  end.
+Definition mon_C02 (c : syscase) : N :=
+  match build (sc_profile c) (sc_opts c) with
+  | Some cfg => c02_from c cfg [] [] 0 (sc_ops c) (sc_obs c)
+  | None => 0
+  end.
